@@ -65,14 +65,28 @@ def listener_cases(ctx, alphabet, programs=None):
         # no ordinary request (quick) or with every placement of one (thorough)
         singles = [(notif, occ, op) for notif in ('run', 'wai', 'pau', 'pla') for occ in (1, 2) for op in ('kill', 'pause', 'play')
                    if not (notif == 'pau' and op == 'pause')]
-        pair_scheds = list(pm.schedules(npos, ops, 1)) if ctx.thorough else [{}]
+        pair_scheds = (list(pm.schedules(npos, ops, 1)) if ctx.thorough
+                       else [{}] + [{pos: ['pause']} for pos in range(npos) if 'pause' in alphabet])
         for i, a in enumerate(singles):
             for b in singles[i + 1:]:
                 if (a[0], a[1]) == (b[0], b[1]):
                     continue
                 for s in pair_scheds:
                     cases.append((name, prog, s, {(a[0], a[1]): a[2], (b[0], b[1]): b[2]}))
+    # corpus of past failures (witnesses of F22-F26), first in line
+    for name, sched, plan in REGRESSION_LISTENER:
+        if programs is None or name in corpus:
+            cases.insert(0, (name, corpus[name], dict(sched), dict(plan)))
     return cases
+
+
+REGRESSION_LISTENER = [
+    ('Sync2', {}, {('run', 1): 'pause', ('pau', 1): 'kill'}),                    # F25
+    ('Waiter', {1: ['pause']}, {('pau', 1): 'play', ('pla', 1): 'pause'}),       # F26
+    ('Waiter', {1: ['play']}, {('wai', 1): 'pause'}),                            # F24
+    ('Waiter', {1: ['pause']}, {('wai', 1): 'kill'}),                            # F22
+    ('Async2', {1: ['pause']}, {('run', 2): 'play'}),                            # F23
+]
 
 
 def run_pm(ctx, alphabet, monitors, k_quick=3, k_thorough=4, n_random_quick=150, n_random_thorough=2000, programs=None,
